@@ -244,6 +244,32 @@ mutual
                   obtain rfl := joinRes_right ht
                   exact ⟨_, _, rfl, hs', hty'⟩
           · cases ht
+        | ifLeft bt bf =>
+          simp only [tyInstr] at ht
+          split at ht
+          · rename_i a b Δ
+            obtain ⟨o, rest, rfl, ho1, ho2, hrest⟩ := hty.cons_inv
+            obtain ⟨hpop, hs1⟩ := hs.pop1
+            simp only [exec, hsi, hpop, bind, Except.bind] at h
+            cases h1 : tySeq c bt (a :: Δ) with
+            | none => simp [h1] at ht
+            | some r1 =>
+              cases h2 : tySeq c bf (b :: Δ) with
+              | none => simp [h1, h2] at ht
+              | some r2 =>
+                simp only [h1, h2] at ht
+                rcases inv_or ho1 ho2 with ⟨x, rfl, hxw, hxt⟩ | ⟨x, rfl, hxw, hxt⟩
+                · simp only at h
+                  obtain ⟨Γ1, act1, rfl, hs', hty'⟩ :=
+                    execSeq_typed ok2 f bt _ _ _ s' (a :: Δ) r1 h1 (hs1.push x) (STy.cons hxw hxt hrest) h
+                  obtain rfl := joinRes_left ht
+                  exact ⟨_, _, rfl, hs', hty'⟩
+                · simp only at h
+                  obtain ⟨Γ2, act2, rfl, hs', hty'⟩ :=
+                    execSeq_typed ok2 f bf _ _ _ s' (b :: Δ) r2 h2 (hs1.push x) (STy.cons hxw hxt hrest) h
+                  obtain rfl := joinRes_right ht
+                  exact ⟨_, _, rfl, hs', hty'⟩
+          · cases ht
         | iter body =>
           simp only [tyInstr] at ht
           split at ht
@@ -260,6 +286,25 @@ mutual
               · rename_i hl
                 simp only [Option.some.injEq] at ht; subst ht
                 obtain ⟨act', h1, h2⟩ := iterLoop_typed ok2 f body xs _ _ _ s' a Δ rb hts hl hxs hs1 hrest h
+                exact ⟨_, _, rfl, h1, h2⟩
+              · cases ht
+          · rename_i a Δ
+            obtain ⟨src, rest, rfl, ho1, ho2, hrest⟩ := hty.cons_inv
+            obtain ⟨xs, rfl, _, hxs⟩ := inv_set ho1 ho2
+            obtain ⟨hpop, hs1⟩ := hs.pop1
+            simp only [exec, hsi, hpop, bind, Except.bind, elements] at h
+            cases hts : tySeq c body (a :: Δ) with
+            | none => simp [hts] at ht
+            | some rb =>
+              simp only [hts] at ht
+              split at ht
+              · rename_i hl
+                simp only [Option.some.injEq] at ht; subst ht
+                have hel : TypedAs a (xs.map Val.atom) := by
+                  intro y hy
+                  obtain ⟨z, hz, rfl⟩ := List.mem_map.mp hy
+                  exact ⟨hxs z hz, rfl⟩
+                obtain ⟨act', h1, h2⟩ := iterLoop_typed ok2 f body _ _ _ _ s' a Δ rb hts hl hel hs1 hrest h
                 exact ⟨_, _, rfl, h1, h2⟩
               · cases ht
           · rename_i k v Δ
@@ -368,6 +413,10 @@ mutual
               · cases ht
           · cases ht
         | failwith => simp [simple] at hsi
+        | left _ => simp [simple] at hsi
+        | right _ => simp [simple] at hsi
+        | emptySet _ => simp [simple] at hsi
+        | mem => simp [simple] at hsi
         | ticket => simp [simple] at hsi
         | readTicket => simp [simple] at hsi
         | splitTicket => simp [simple] at hsi
